@@ -21,7 +21,9 @@ RULE = ('programs: G_mps (conv / conv-BN / depthwise / residual add / skip add /
         'precision tuples: all 15 ordered selections from {2,4,8} for activations x weights on depth-1 programs, (2,4,8) / (8,4,2) / (4,8) beyond; '
         'arg-max assignments: complete product over the unique selectors when <= cap, else all assignments within 2 moves + uniform corners; '
         'options: T in {0.05,1,20} x gumbel x hard on the initial and one rotated assignment; non-trivial = an assignment with at least one '
-        'selector moved away from its initial arg-max or a non-default precision tuple')
+        'selector moved away from its initial arg-max or a non-default precision tuple; quantizers configured through the quantization info '
+        '(asymmetric weight quantizer, PACT initial clip value) on the depth-1 programs; summary() is read twice per state - right after the '
+        'coefficients were written (before any forward / export) and after the export - and both readings must agree with the exported layers')
 ASSUMPTIONS = ['PER_LAYER weight search only (scope of the statement)', '"on every input" decided on a seeded witness batch inside the input quantizer range [0,1)',
                'arg-max abstraction A2: coefficients realised by tie-free representatives with gaps >= 0.05']
 
@@ -64,13 +66,24 @@ def cases(tier, seed):
             if len(p['stages']) == 1 and not any(k in s for s in p['stages'] for k in ('bias', 'k', 's', 'act', 'cout')) and not p.get('head_bn'):
                 continue
             out.append({'prog': p, 'a': list(a), 'w': list(w), 'tier': tier})
+    # quantizers configured through the quantization info: depth-1 programs (+ depth 2 in the thorough tier), residual and depthwise included
+    for p in GM.gen(1 if tier == 'quick' else 2):
+        for q in QCFG:
+            for a, w in (((2, 4, 8), (2, 4, 8)), ((8, 4), (4, 2, 8))):
+                out.append({'prog': p, 'a': list(a), 'w': list(w), 'tier': tier, 'qcfg': q, 'sweep': True})
     return out
 
 
-def make(prog, a, w, seed, **kw):
+QCFG = {'w-asym': ('weight', {'symmetric': False}), 'out-clip3': ('output', {'init_clip_val': 3.0})}
+
+
+def make(prog, a, w, seed, qcfg=None, **kw):
     from plinio.methods.mps import MPS, get_default_qinfo
     model, x = G2.build(prog, seed)
     qinfo = get_default_qinfo(w_precision=tuple(w), a_precision=tuple(a))
+    if qcfg:      # quantizers configured through the quantization info (keyword arguments of the quantizer classes)
+        role, kwargs = QCFG[qcfg]
+        qinfo['layer_default'][role]['kwargs'] = dict(qinfo['layer_default'][role].get('kwargs', {}), **kwargs)
     nas = MPS(model, qinfo=qinfo, **G2.shape_args(prog, x), **kw)
     return nas, x
 
@@ -95,10 +108,11 @@ def _producer(node, mods):
     return None
 
 
-def check_export(nas, x, exp):
-    """-> list of (kind, msg)"""
+def check_export(nas, x, exp, summ=None, when=''):
+    """-> list of (kind, msg); summ: a summary() taken by the caller at another moment (default: now)"""
     bad = []
-    summ = nas.summary()
+    if summ is None:
+        summ = nas.summary()
     mods = dict(exp.named_modules())
     for lname, s in summ.items():
         e = mods.get(lname)
@@ -109,7 +123,7 @@ def check_export(nas, x, exp):
             if role in s and hasattr(e, attr):
                 q = getattr(e, attr)
                 if hasattr(q, 'precision') and int(q.precision) != int(s[role]):
-                    bad.append(('precision-differs-from-summary', f'{lname}.{attr}.precision={int(q.precision)} but summary {role}={s[role]}'))
+                    bad.append(('precision-differs-from-summary', f'{lname}.{attr}.precision={int(q.precision)} but summary{when} {role}={s[role]}'))
     sites = {}
     for n in exp.graph.nodes:
         if n.op == 'call_module':
@@ -180,14 +194,14 @@ def run_case(case, seed):
     b = bounds(tier)
     res = {'states': 0, 'transitions': 0, 'evals': 0, 'nontrivial': [], 'outcomes': set(), 'violations': []}
     base_case = {k: v for k, v in case.items() if k != 'only'}
-    ssig = _shape_sig(prog)
+    ssig = _shape_sig(prog) + (f"/qinfo={case['qcfg']}" if case.get('qcfg') else '')
 
     def add(kind, sig, msg, label):
         res['outcomes'].add(kind)
         res['violations'].append({'kind': kind, 'sig': sig, 'msg': msg, 'case': dict(base_case, only=label)})
 
     try:
-        nas, x = make(prog, a, w, seed)
+        nas, x = make(prog, a, w, seed, qcfg=case.get('qcfg'))
     except Exception as e:
         res.update(states=1, evals=1)
         add('conversion-raises', 'conversion-raises/' + ssig, f'MPS() raised {type(e).__name__}: {str(e)[:200]}', None)
@@ -214,6 +228,11 @@ def run_case(case, seed):
             continue
         nas.update_softmax_options(temperature=T, hard=h, gumbel=g, disable_sampling=False)
         set_assignment(sels, asg, rep, via=res['states'])
+        # what summary() reports right after the coefficients were written - before any forward or export - is compared with the export too
+        try:
+            summ_pre = nas.summary()
+        except Exception:
+            summ_pre = None
         res['states'] += 1
         res['transitions'] += sum(1 for p, q in zip(asg, init) if p != q) + (0 if (T, g, h) == (1.0, False, False) else 1)
         res['evals'] += 1
@@ -251,6 +270,9 @@ def run_case(case, seed):
             add('output-not-bit-identical', sig,
                 f'a={a} w={w} {label}: MPS.eval()(x) and export().eval()(x) differ (max|diff|={d})', label)
         bad = check_export(nas, x, exp)
+        if summ_pre is not None and not bad:
+            bad = [b_ for b_ in check_export(nas, x, exp, summ=summ_pre, when=' (read right after the coefficients were written, before any forward)')
+                   if b_[0] == 'precision-differs-from-summary']
         for kind, msg in bad[:3]:
             add(kind, kind if '@' in kind else f'{kind}/' + ssig, f'a={a} w={w} {label}: {msg}', label)
         if not bad:
